@@ -30,4 +30,60 @@ theorem legendre_model (z : L4) (a : Fr) (hz : z.ok) (hzr : z.val < R) (rz : Cio
   unfold Fr.legendre
   simp only [zp_pow_val]
 
+/-! ### the represented scalar as a homomorphism -/
+
+/-- the scalar a limb vector stands for: what `FromMont` returns, as an element of the model field -/
+def valOf (x : L4) : Fr := Zp.ofNat R (fromMontG x).val
+
+/-- every limb vector is a Montgomery representation of its `valOf` -/
+theorem repr_valOf (x : L4) (hx : x.ok) : Cios.Repr x (valOf x).val := by
+  obtain ⟨_, lt, e⟩ := fromMontG_correct x hx
+  unfold Cios.Repr valOf Zp.ofNat
+  simp only
+  rw [Nat.mod_eq_of_lt lt]
+  exact (Nat.ModEq.symm e)
+
+theorem valOf_of_repr (x : L4) (a : Nat) (hx : x.ok) (r : Cios.Repr x a) : (valOf x).val = a % R := by
+  unfold valOf Zp.ofNat
+  simp only
+  rw [(fromMontG_repr x a hx r).1, Nat.mod_mod]
+
+theorem zp_mul_val (a b : Fr) : (a * b).val = a.val * b.val % R := rfl
+
+/-- **`Mul` is multiplication of the represented scalars** -/
+theorem valOf_mul (x y : L4) (hx : x.ok) (hy : y.ok) (hyr : y.val < R) :
+    valOf (mulG x y) = valOf x * valOf y := by
+  obtain ⟨r, _, ok⟩ := mulG_repr x y (valOf x).val (valOf y).val hx hy hyr (repr_valOf x hx) (repr_valOf y hy)
+  have h := valOf_of_repr (mulG x y) _ ok r
+  have : (valOf (mulG x y)).val = (valOf x * valOf y).val := by rw [h, zp_mul_val]
+  cases hv : valOf (mulG x y) with
+  | mk v1 l1 =>
+    cases hw : valOf x * valOf y with
+    | mk v2 l2 =>
+      rw [hv, hw] at this
+      simp only at this
+      subst this
+      rfl
+
+theorem fr_ext (a b : Fr) (h : a.val = b.val) : a = b := by
+  cases a; cases b; simp only at h; subst h; rfl
+
+theorem valOf_one : valOf oneL = 1 := by
+  apply fr_ext
+  rw [valOf_of_repr oneL 1 one_repr.2.2 one_repr.1]; rfl
+
+theorem valOf_zero : valOf ⟨0, 0, 0, 0⟩ = 0 := by
+  apply fr_ext
+  rw [valOf_of_repr _ 0 zero_repr.2.2 zero_repr.1]; rfl
+
+/-- on fully reduced limb vectors `valOf` is injective: the limb comparisons of the Go code (`IsZero`,
+the comparison with the Montgomery form of 1, `Equal`) decide equality of the represented scalars -/
+theorem valOf_inj (x y : L4) (hx : x.ok) (hy : y.ok) (hxr : x.val < R) (hyr : y.val < R) :
+    valOf x = valOf y ↔ x = y := by
+  constructor
+  · intro h
+    have hv : (valOf x).val = (valOf y).val := by rw [h]
+    exact (repr_eq_iff x y _ _ hx hy hxr hyr (repr_valOf x hx) (repr_valOf y hy)).2 (by rw [hv])
+  · intro h; rw [h]
+
 end GoIpa.Tie.FrMisc
